@@ -5,6 +5,7 @@ import json
 from common import *
 from dialogue import *
 import gen_smtp as G
+import pool as P
 
 ACTIONS = ["ok1", "okN", "okBig", "3xx", "4xx", "4xxN", "5xx", "5xxN", "bare", "wrongcont", "garbage", "partial_close", "close", "reply_close", "extra", "nonutf8"]
 
@@ -172,6 +173,19 @@ def run(ctx):
         if why:
             obad.append((i, fl, why, r, isc))
     ctx.cov["oracle"]["rfc5321_send_outcome_on_impl"] = {"cases": len(impl_scs), "failures": len(obad)}
+    # the same claim through the pooled transports (send_raw = check-out, one send(), return): a failed
+    # send is reported, never silently repeated on another connection
+    pscs = []
+    for kind in ("sync", "tokio"):
+        pscs += P.gen_faults(rng, kind, 40 if ctx.tier == "quick" else 800)
+        pscs += P.gen_server_drops(rng, kind, 4 if ctx.tier == "quick" else 60)
+    pob, pcb, pres, pmres = P.check_all(ctx, pscs, ("C07",))
+    pob = [(sc, r, [x for x in o if "more than once" in x[1] or "copies" in x[1] or "although the server accepted" in x[1] or "committed (" in x[1]]) for (sc, r, o) in pob]
+    pob = [x for x in pob if x[2]]
+    ctx.cov["oracle"]["pooled_transport_once_only"] = {"scenarios": len(pscs), "failures": len(pob)}
+    if pob:
+        sc, r, o = pob[0]
+        ctx.violation({"kind": "oracle-pooled", "what": "%s: %s" % (o[0][1], o[0][2]), "scenario": sc, "impl": r, "failures": len(pob)})
     if obad:
         i, fl, why, r, isc = obad[0]
         ctx.violation({"kind": "oracle", "flavor": fl, "what": why, "fault": scs[i]["fault"], "scenario": isc, "impl": r, "failures": len(obad)})
@@ -182,6 +196,8 @@ def run(ctx):
 
 def replay(ctx, path):
     d = json.load(open(path))
+    if d.get("kind") == "oracle-pooled":
+        return P.replay_file(ctx, path, "C07")
     build_model(ctx); build_harness(ctx)
     r = run_scenarios([d["scenario"]])[0]
     print(json.dumps(r)); print("model:", d.get("model"))
